@@ -9,6 +9,7 @@ import (
 	"os"
 	"os/exec"
 	"path/filepath"
+	"sort"
 	"strings"
 	"sync"
 	"time"
@@ -38,6 +39,19 @@ func script(assume []*T, goal *T, extraDecl string) string {
 	var sb strings.Builder
 	sb.WriteString("(set-option :produce-models true)\n(set-logic ALL)\n")
 	sb.WriteString(extraDecl)
+	ufs := map[string]string{}
+	for _, a := range assume {
+		collectUFs(a, ufs)
+	}
+	collectUFs(goal, ufs)
+	var ufNames []string
+	for n := range ufs {
+		ufNames = append(ufNames, n)
+	}
+	sort.Strings(ufNames)
+	for _, n := range ufNames {
+		sb.WriteString(ufs[n])
+	}
 	for _, n := range sortedVarNames(vars) {
 		fmt.Fprintf(&sb, "(declare-const %s %s)\n", smtName(n), vars[n])
 	}
@@ -50,6 +64,20 @@ func script(assume []*T, goal *T, extraDecl string) string {
 	goal.write(&sb)
 	sb.WriteString("))\n(check-sat)\n(get-model)\n")
 	return sb.String()
+}
+
+// collectUFs declares the uninterpreted functions used by a term.
+func collectUFs(t *T, into map[string]string) {
+	if t.Op == "gomod" || strings.HasPrefix(t.Op, "uf_") {
+		var as []string
+		for _, a := range t.Args {
+			as = append(as, a.Sort.String())
+		}
+		into[t.Op] = fmt.Sprintf("(declare-fun %s (%s) %s)\n", t.Op, strings.Join(as, " "), t.Sort)
+	}
+	for _, a := range t.Args {
+		collectUFs(a, into)
+	}
 }
 
 var tmpDir string
